@@ -215,14 +215,14 @@ def classify_harness(unit_expect, r):
     fails = failed_checks(r)
     unwind_fail = [c for c in fails if "unwinding assertion" in (c.get("description") or "")]
     undet = [c for c in checks if c.get("status") in ("Undetermined", "Error")]
-    unsupported = [c for c in fails if re.search(r"not currently supported|unsupported",
+    unsupported = [c for c in fails if re.search(r"not currently supported|unsupported|Only a single top-level call to function",
                                                  c.get("description") or "", re.I)]
     covers = [c for c in checks if c.get("category") == "cover"
               or c.get("status") in ("Satisfied", "Unsatisfiable", "Unreachable")
               and "cover" in (c.get("category") or "")]
     sat = [c for c in checks if c.get("status") == "Satisfied"]
     if unsupported:
-        return "undecided", "unsupported construct reached: " + unsupported[0]["description"]
+        return "undecided", "tool limitation, not a verdict: " + unsupported[0]["description"][:200]
     if unit_expect["kind"] == "pass":
         real = [c for c in fails if c not in unwind_fail]
         if real:
